@@ -539,6 +539,149 @@ theorem f81_undefined_never_small_or_witness :
              linarith
            simp [hne, hbne, this])
 
+/-- K2P (with and without gamma): `1 - 2P - Q ≤ 0`, `1 - 2Q ≤ 0` or no comparable site never gives a
+finite entry — or the source is the unchanged one, whose gamma variant raises the negative
+argument to an integer power (witness: 4 transitions on 4 sites, alpha = 1/2: `pow(-1, -2) = 1` ↦ 0) -/
+theorem k2p_undefined_never_small_or_witness :
+    (∀ (g : Bool) (a trS trV t : ℝ), 0 < a → 0 ≤ trS → 0 ≤ trV → 0 ≤ t →
+        (t = 0 ∨ 1 - 2 * (trS / t) - trV / t ≤ 0 ∨ 1 - 2 * (trV / t) ≤ 0) →
+        Safe (Gen.k2pDistance g (fin a) (fin trS) (fin trV) (fin t)))
+    ∨ Gen.k2pDistance true (fin (1 / 2)) (fin 4) (fin 0) (fin 4) = fin 0 := by
+  first
+    | (right
+       unfold Gen.k2pDistance
+       simp only [FVal.ofNat_eq, Nat.cast_ofNat, Nat.cast_one, Nat.cast_zero]
+       have e1 : (fin 4 / fin 4 : FVal) = fin 1 := by rw [FVal.div_fin_ne (by norm_num)]; norm_num
+       have e2 : (fin 0 / fin 4 : FVal) = fin 0 := by rw [FVal.div_fin_ne (by norm_num)]; norm_num
+       have e3 : (-(fin 1) / fin (1 / 2) : FVal) = fin (-2) := by
+         rw [FVal.neg_fin, FVal.div_fin_ne (by norm_num)]; norm_num
+       simp only [e1, e2, e3, FVal.mul_fin, FVal.sub_fin, FVal.add_fin]
+       norm_num
+       rw [FVal.pow_neg_one_neg_two, FVal.pow_one_base _ (by norm_num)]
+       simp
+       norm_num
+       done)
+    | (left
+       intro g a trS trV t _ hP hQ ht hu
+       suffices h : Gen.k2pDistance g (fin a) (fin trS) (fin trV) (fin t) = pinf by rw [h]; exact safe_pinf
+       unfold Gen.k2pDistance
+       simp only [FVal.ofNat_eq, Nat.cast_ofNat, Nat.cast_one, Nat.cast_zero]
+       rcases eq_or_lt_of_le ht with h0 | hpos
+       · subst h0
+         rcases eq_or_lt_of_le hP with hP0 | hPpos
+         · subst hP0
+           simp
+         · rcases eq_or_lt_of_le hQ with hQ0 | hQpos
+           · subst hQ0; simp [hPpos]
+           · simp [hPpos, hQpos]
+       · have hne : t ≠ 0 := ne_of_gt hpos
+         have hu' : 1 - 2 * (trS / t) - trV / t ≤ 0 ∨ 1 - 2 * (trV / t) ≤ 0 := by
+           rcases hu with h | h | h
+           · exact absurd h hne
+           · exact Or.inl h
+           · exact Or.inr h
+         rcases hu' with h | h
+         · have : ¬ (0 < 1 - 2 * (trS / t) - trV / t) := not_lt.mpr h
+           simp [hne, this]
+         · have : ¬ (0 < 1 - 2 * (trV / t)) := not_lt.mpr h
+           simp [hne, this])
+
+/-- TN93 (with and without gamma), positive base frequencies: a non-positive logarithm argument or no
+comparable site never gives a finite entry — or the source is the unchanged one (witness: equal
+frequencies, 4 A<->G differences on 4 sites: `e2 = -3`, NaN, clamped to 0) -/
+theorem tn93_undefined_never_small_or_witness :
+    (∀ (g : Bool) (a πA πC πG πT trS trV p1 p2 t : ℝ), 0 < a → 0 < πA → 0 < πC → 0 < πG → 0 < πT →
+        0 ≤ trV → 0 ≤ p1 → 0 ≤ p2 → 0 ≤ t →
+        (t = 0 ∨ tn93E1 πA πC πG πT (trV / t) ≤ 0 ∨ tn93E2 πA πC πG πT (p1 / t) (trV / t) ≤ 0
+          ∨ tn93E3 πA πC πG πT (p2 / t) (trV / t) ≤ 0) →
+        Safe (Gen.tn93Distance g (fin a) (fin πA) (fin πC) (fin πG) (fin πT) (fin trS) (fin trV) (fin p1) (fin p2) (fin t)))
+    ∨ Gen.tn93Distance false (fin 1) (fin (1 / 4)) (fin (1 / 4)) (fin (1 / 4)) (fin (1 / 4))
+        (fin 4) (fin 0) (fin 4) (fin 0) (fin 4) = fin 0 := by
+  first
+    | (right
+       unfold Gen.tn93Distance
+       simp only [FVal.ofNat_eq, Nat.cast_ofNat, Nat.cast_one, Nat.cast_zero, Bool.false_eq_true, if_false]
+       norm_num [FVal.div_fin_ne]
+       done)
+    | (left
+       intro g a πA πC πG πT trS trV p1 p2 t _ hA hC hG hT hv _ _ ht hu
+       suffices h : Gen.tn93Distance g (fin a) (fin πA) (fin πC) (fin πG) (fin πT) (fin trS) (fin trV) (fin p1)
+           (fin p2) (fin t) = pinf by rw [h]; exact safe_pinf
+       have hR : πA + πG ≠ 0 := by positivity
+       have hY : πC + πT ≠ 0 := by positivity
+       have hRY : 2 * (πC + πT) * (πA + πG) ≠ 0 := by positivity
+       have hR2 : 2 * (πA + πG) ≠ 0 := by positivity
+       have hY2 : 2 * (πC + πT) ≠ 0 := by positivity
+       have hAG : 2 * (πA * πG) ≠ 0 := by positivity
+       have hCT : 2 * (πC * πT) ≠ 0 := by positivity
+       have hRYp : 0 ≤ 2 * (πC + πT) * (πA + πG) := by positivity
+       unfold Gen.tn93Distance
+       simp only [FVal.ofNat_eq, Nat.cast_ofNat, Nat.cast_one, Nat.cast_zero]
+       rcases eq_or_lt_of_le ht with h0 | hpos
+       · subst h0
+         rcases eq_or_lt_of_le hv with hv0 | hvpos
+         · subst hv0
+           simp
+         · simp [hvpos, hRYp]
+       · have hne : t ≠ 0 := ne_of_gt hpos
+         unfold tn93E1 tn93E2 tn93E3 at hu
+         real_like at hu
+         simp [hne, hRY, hR2, hY2, hAG, hCT, hR, hY]
+         rcases hu with h | h | h | h
+         · exact absurd h hne
+         all_goals
+           intro c1 c2 c3
+           exfalso
+           ring_nf at h c1 c2 c3
+           linarith)
+
+/-- F84 (with and without gamma), `A, C > 0`: a non-positive logarithm argument or no comparable site
+never gives a finite entry — or the source is the unchanged one, whose gamma variant raises the
+negative argument to an integer power (witness: equal frequencies, 4 transitions on 4 sites,
+alpha = 1/2 ↦ 0) -/
+theorem f84_undefined_never_small_or_witness :
+    (∀ (g : Bool) (a A B C trS trV t : ℝ), 0 < a → 0 < A → 0 < C → 0 ≤ trS → 0 ≤ trV → 0 ≤ t →
+        (t = 0 ∨ 1 - trS / t / (2 * A) - (A - B) * (trV / t) / (2 * A * C) ≤ 0 ∨ 1 - trV / t / (2 * C) ≤ 0) →
+        Safe (Gen.f84Distance g (fin a) (fin A) (fin B) (fin C) (fin trS) (fin trV) (fin t)))
+    ∨ Gen.f84Distance true (fin (1 / 2)) (fin (1 / 4)) (fin (1 / 8)) (fin (1 / 4)) (fin 4) (fin 0) (fin 4) = fin 0 := by
+  first
+    | (right
+       unfold Gen.f84Distance
+       simp only [FVal.ofNat_eq, Nat.cast_ofNat, Nat.cast_one, Nat.cast_zero, if_true]
+       have e3 : (-(fin 1) / fin (1 / 2) : FVal) = fin (-2) := by
+         rw [FVal.neg_fin, FVal.div_fin_ne (by norm_num)]; norm_num
+       rw [e3]
+       norm_num [FVal.div_fin_ne]
+       rw [FVal.pow_neg_one_neg_two, FVal.pow_one_base _ (by norm_num)]
+       first
+         | (simp; done)
+         | (simp; norm_num; done))
+    | (left
+       intro g a A B C trS trV t _ hA hC _ hQ ht hu
+       suffices h : Gen.f84Distance g (fin a) (fin A) (fin B) (fin C) (fin trS) (fin trV) (fin t) = pinf by
+         rw [h]; exact safe_pinf
+       have h2A : 2 * A ≠ 0 := by positivity
+       have h2C : 2 * C ≠ 0 := by positivity
+       have h2AC : 2 * A * C ≠ 0 := by positivity
+       have h2Cp : 0 ≤ 2 * C := by positivity
+       unfold Gen.f84Distance
+       simp only [FVal.ofNat_eq, Nat.cast_ofNat, Nat.cast_one, Nat.cast_zero]
+       rcases eq_or_lt_of_le ht with h0 | hpos
+       · subst h0
+         rcases eq_or_lt_of_le hQ with hQ0 | hQpos
+         · subst hQ0
+           simp
+         · simp [hQpos, h2Cp]
+       · have hne : t ≠ 0 := ne_of_gt hpos
+         simp [hne, h2A, h2C, h2AC]
+         rcases hu with h | h | h
+         · exact absurd h hne
+         all_goals
+           intro c1 c2
+           exfalso
+           ring_nf at h c1 c2
+           linarith)
+
 /-- matrix assembly: when every evaluation of the pair's estimator is `Safe`, the cell is NaN or the
 matrix-wide substitute — never one of the estimator's own finite values (all variants of the model) -/
 theorem undefined_never_small_matrix (v : Variant) (entries : List ((Nat × Nat) × FVal)) (i j : Nat)
